@@ -224,11 +224,14 @@ Inductive err := EDirOverNondir | ENondirOverDir | ENoMatch | EOther | EScope.
 
 Record cstate := {
   c_fs : fsys;
-  c_imap : list (N * path);        (* copier.inodes: source inode -> first destination path *)
-  c_notifs : list (path * bool)    (* change notifications, newest first: (destination path, is-dir) *)
+  c_imap : list (N * (path * N));  (* copier.inodes: source inode -> first destination path
+                                      (+ ghost: the inode id of the copy made there) *)
+  c_notifs : list (path * bool);   (* change notifications, newest first: (destination path, is-dir) *)
+  c_stale : bool                   (* ghost: a link group member met a map entry whose destination
+                                      path no longer holds the copy made for it *)
 }.
 Definition with_fs (st : cstate) (fs : fsys) : cstate :=
-  {| c_fs := fs; c_imap := c_imap st; c_notifs := c_notifs st |}.
+  {| c_fs := fs; c_imap := c_imap st; c_notifs := c_notifs st; c_stale := c_stale st |}.
 
 Definition R := (cstate * option err)%type.
 Definition ok (st : cstate) : R := (st, None).
@@ -241,11 +244,11 @@ Notation "s <~ m ;; k" := (bind m (fun s => k)) (at level 61, m at next level, r
 Definition sys (o : option fsys) (st : cstate) : R :=
   match o with Some fs' => ok (with_fs st fs') | None => fail EOther st end.
 
-Fixpoint imap_find (i : N) (l : list (N * path)) : option path :=
+Fixpoint imap_find (i : N) (l : list (N * (path * N))) : option (path * N) :=
   match l with [] => None | (j, p) :: r => if N.eqb i j then Some p else imap_find i r end.
 
 Definition notify (p : path) (isdir : bool) (st : cstate) : cstate :=
-  {| c_fs := c_fs st; c_imap := c_imap st; c_notifs := (p, isdir) :: c_notifs st |}.
+  {| c_fs := c_fs st; c_imap := c_imap st; c_notifs := (p, isdir) :: c_notifs st; c_stale := c_stale st |}.
 
 Section Copy.
   Variable o : copts.
@@ -317,8 +320,12 @@ Section Copy.
     let fresh := sys (k_create (o_umask o) target (d_content sd) (c_fs st)) in
     if multi ino then
       match imap_find ino (c_imap st) with
-      | Some link => sys (k_link link target (c_fs st)) st
-      | None => fresh {| c_fs := c_fs st; c_imap := (ino, target) :: c_imap st; c_notifs := c_notifs st |}
+      | Some (link, id) =>
+        let stale := match names (c_fs st) link with Some j => negb (N.eqb j id) | None => true end in
+        sys (k_link link target (c_fs st))
+            {| c_fs := c_fs st; c_imap := c_imap st; c_notifs := c_notifs st; c_stale := c_stale st || stale |}
+      | None => fresh {| c_fs := c_fs st; c_imap := (ino, (target, next (c_fs st))) :: c_imap st;
+                         c_notifs := c_notifs st; c_stale := c_stale st |}
       end
     else fresh st.
 
@@ -511,20 +518,22 @@ Section Top.
   Variable selected : path -> bool.
   Variable sroot : snode.        (* the source root directory *)
 
-  (* filepath.Join(destPath, filepath.Base(src)) *)
-  Definition join_base (d : path) (src : bytes) : path + err :=
-    let b := base src in
-    if bytes_eqb b [sep] || bytes_eqb b s_dot then inl d
-    else if bytes_eqb b s_dotdot then (match d with [] => inr EScope | _ => inl (removelast d) end)
-    else inl (d ++ [b]).
+  (* filepath.Join(destPath, filepath.Base(filepath.Join("/", src))): the last component of the
+     resolved source path; the root itself ("/") adds nothing *)
+  Definition join_base (d : path) (src : bytes) : path :=
+    match rev (rooted src) with
+    | [] => d
+    | b :: _ => d ++ [b]
+    end.
 
   (* one source: rootPath, prepareTargetDir, copier.copy.  Returns the state, the error and
      the directories MkdirAll created (for the deferred fixCreatedParentDirs) *)
-  Definition copy_one (ms : option (list bitcmd)) (dstp : path) (src : bytes) (st : cstate)
+  Definition copy_one (ms : option (list bitcmd)) (dst : bytes) (src : bytes) (st : cstate)
     : cstate * option err * list path :=
-    match s_resolve sroot (rooted src) with
-    | inr e => (st, Some e, [])
-    | inl sn =>
+    match s_resolve sroot (rooted src), root_path (c_fs st) (clean dst) with
+    | inr e, _ => (st, Some e, [])
+    | _, inr e => (st, Some e, [])
+    | inl sn, inl dstp =>
       let fi_dest := lstat (c_fs st) dstp in
       match (match fi_dest with Some d => is_lnk d | None => false end) with
       | true => (st, Some EScope, [])
@@ -532,10 +541,8 @@ Section Top.
         let src_dir := is_dir (sdent sn) in
         let dest_exists := match fi_dest with Some _ => true | None => false end in
         let dest_dir := match fi_dest with Some d => is_dir d | None => false end in
-        match (if (negb (o_dircontents o) && src_dir && dest_exists) || (negb src_dir && dest_dir)
-               then join_base dstp src else inl dstp) with
-        | inr e => (st, Some e, [])
-        | inl dest_path =>
+        let dest_path := if (negb (o_dircontents o) && src_dir && dest_exists) || (negb src_dir && dest_dir)
+                         then join_base dstp src else dstp in
           let target := if o_dircontents o && src_dir && negb dest_exists then dest_path else parent dest_path in
           match mkdir_all o target st with
           | (st1, Some e, _) => (st1, Some e, [])
@@ -543,11 +550,10 @@ Section Top.
             let '(st2, e) := copy_node o ms (multi_of sroot) selected sn [] dest_path false st1 in
             (st2, e, created)
           end
-        end
       end
     end.
 
-  Fixpoint copy_srcs (ms : option (list bitcmd)) (dstp : path) (srcs : list bytes) (st : cstate)
+  Fixpoint copy_srcs (ms : option (list bitcmd)) (dstp : bytes) (srcs : list bytes) (st : cstate)
     : cstate * option err * list path :=
     match srcs with
     | [] => (st, None, [])
@@ -575,7 +581,7 @@ Section Top.
     end.
 
   Definition copy_top (fs : fsys) (src dst : bytes) : R :=
-    let st0 := {| c_fs := fs; c_imap := []; c_notifs := [] |} in
+    let st0 := {| c_fs := fs; c_imap := []; c_notifs := []; c_stale := false |} in
     let ensure := match split_last dst with
                   | Some (d, f) => if nonempty f && negb (bytes_eqb f s_dot) then d else dst
                   | None => if nonempty dst && negb (bytes_eqb dst s_dot) then [] else dst
@@ -595,14 +601,10 @@ Section Top.
         match (match o_modestr o with [] => Some None | s => option_map Some (parse_mode s) end) with
         | None => (st1, Some EOther, [])
         | Some ms =>
-          match root_path (c_fs st1) (clean dst) with
+          match (if o_wild o then resolve_wild src else inl [src]) with
           | inr e => (st1, Some e, [])
-          | inl dstp =>
-            match (if o_wild o then resolve_wild src else inl [src]) with
-            | inr e => (st1, Some e, [])
-            | inl [] => (st1, Some ENoMatch, [])
-            | inl srcs => copy_srcs ms dstp srcs st1
-            end
+          | inl [] => (st1, Some ENoMatch, [])
+          | inl srcs => copy_srcs ms dst srcs st1
           end
         end in
       let '(st2, e2, cr2) := body in
